@@ -497,6 +497,26 @@ func c23Aligned(p *an.Prog, r *an.R, rule string) {
 				}
 			}
 			if elem != nil {
+				// `var entry RepoListEntry; entry.Repository = md; ...; append(.., entry)`: filled field by field
+				if eid, ok := ast.Unparen(elem).(*ast.Ident); ok {
+					eobj := info.ObjectOf(eid)
+					ast.Inspect(in.rs.Body, func(m ast.Node) bool {
+						a2, ok := m.(*ast.AssignStmt)
+						if !ok || len(a2.Lhs) != len(a2.Rhs) {
+							return true
+						}
+						for i, lh := range a2.Lhs {
+							se, ok := ast.Unparen(lh).(*ast.SelectorExpr)
+							if !ok || se.Sel.Name != "Repository" || !isIdentOf(info, se.X, eobj) {
+								continue
+							}
+							if id, ok := ast.Unparen(a2.Rhs[i]).(*ast.Ident); ok && in.val != nil && info.ObjectOf(id) == in.val {
+								okElem = true
+							}
+						}
+						return true
+					})
+				}
 				if dd := defOf(info, d.Decl.Body, elem); dd != nil {
 					elem = dd
 				}
